@@ -57,6 +57,11 @@ def skeletons(tier):
     progs.append(("late-helper", {
         "funcs": [mkfunc("R", calls=[call("K")], rich=False), mkfunc("K", kind="plain", reads=["LV"])],
         "vars": {"LV": 3}, "late": ["LV"], "order": ["R", "K"]}))
+    # reference cycles: a function calling itself, and two functions calling each other (guarded by the argument)
+    progs.append(("cycles", {
+        "funcs": [mkfunc("R", calls=[call("R", "rec"), call("D", "rec")], rich=False), mkfunc("D", calls=[call("R", "rec"), call("P")], rich=False),
+                  mkfunc("P", kind="plain", calls=[call("D", "rec")], rich=False)],
+        "vars": {}}))
     # several tracked variables holding equal values: an edit may give one the value another one has (or had)
     progs.append(("equal-valued-vars", {
         "funcs": [mkfunc("R", calls=[call("D")], reads=["V1", "V2", "V3"], rich=False),
